@@ -232,6 +232,8 @@ def spec_checks(rep: OpReport, rec: PathRec, cls: str, params: dict) -> None:
 
     def ob(kind: str, sig: str, msg: str, ok: bool, trivia: bool = False) -> None:
         props = props_for(rec.side, cls, "SPEC")
+        if cls in ("PositivePredicate", "NegativePredicate"):
+            props = props | {"C05"}  # "or a predicate succeeds — every stack change made inside it is undone"
         if trivia:
             props = (props - {"C03", "C08"}) | {"C04"}
             if rec.side == "generate":
